@@ -327,6 +327,9 @@ pub struct SkipNode {
     pub hi: usize,
     /// end of the last outer attribute (== lo if there is none)
     pub attrs_hi: usize,
+    /// end of the node the attribute belongs to syntactically: for an expression statement the
+    /// end of the expression (before the `;`), else `hi`
+    pub inner_hi: usize,
     /// item | assoc | foreign | stmt | expr | arm | field | variant | expr_field | param
     pub kind: &'static str,
     /// inside an expression-level block (closure body, block expression, arm body, ...)
@@ -354,7 +357,7 @@ impl<'a> SkipNodeFinder<'a> {
                     }
                 }
             }
-            self.out.push(SkipNode { lo, hi, attrs_hi, kind, nested: self.expr_depth > 0 });
+            self.out.push(SkipNode { lo, hi, attrs_hi, inner_hi: hi, kind, nested: self.expr_depth > 0 });
         }
     }
 }
@@ -381,7 +384,12 @@ impl<'a, 'ast> Visitor<'ast> for SkipNodeFinder<'a> {
             ast::StmtKind::Expr(e) | ast::StmtKind::Semi(e) => {
                 // an expression statement: the attribute sits on the expression, the statement
                 // visitor copies the whole statement
+                let before = self.out.len();
                 self.check(&e.attrs, s.span, "stmt");
+                if self.out.len() > before {
+                    let (_, ehi) = span_range(self.sm, e.span);
+                    self.out[before].inner_hi = ehi;
+                }
                 self.expr_depth += 1;
                 visit::walk_expr(self, e);
                 self.expr_depth -= 1;
